@@ -325,6 +325,8 @@ def runOp (st : St) (k : Nat) (name : String) (args : List String) (m? : Option 
   | "react", [], some m => pure (some (prep m).react, none)
   | "query", [], some m => pure (some (prep m).query, none)
   | "reset", [], some m => pure (some (prep m).reset, none)
+  | "attachlogger", [a], some m =>
+    if a = "0" || a = "1" then pure (some ((prep m).attachLogger (a = "1")), none) else throw "bad attachlogger"
   | "req", [kd, d, p], some m =>
     match kindOfLetter kd, d.toNat?, optNat p with
     | some kd, some d, some p => pure (some ((prep m).request kd d p), none)
